@@ -111,7 +111,7 @@ func pickISN(c *sim.Ctx, n int) uint32 {
 	case 4:
 		return 0xFFFFFFFF
 	default:
-		return uint32(c.Draw(1 << 30)) | uint32(c.Draw(4))<<30
+		return uint32(c.Draw(1<<30)) | uint32(c.Draw(4))<<30
 	}
 }
 
